@@ -335,7 +335,7 @@ def run(ctx):
                     cfg = m.addSegment.cfg
                     rs = [x for _, kind, x, _ in facts.vector_sizing(m.addSegment, m.buffer)]
                     ok = len(spl) == 1 and len(rs) >= 1 and all(cfg.block_for(spl[0]) == cfg.block_for(r) and cfg.pos_of[spl[0]["id"]] > cfg.pos_of[r["id"]] for r in rs) and \
-                        m.buffer in depends(m.addSegment, spl[0]["args"][0])[0] and any(x.get("k") == "sizeof" and x.get("ofrec") == NS + "MessageHeader" for x in walk(spl[0]["args"][0]))
+                        m.buffer in depends(m.addSegment, spl[0]["args"][0])[0] and setlen_is_size_minus_header(fb, m, spl[0]["args"][0])
                     why = "reassembly buffer: its header's payload length is rewritten to size() - 16 after every growth"
                 res.check(ok, "C03-R4", "Packet-from-bytes:%s" % f.name.split("::")[-1], c.get("loc"), why,
                           "a Packet is constructed from raw bytes in %s without isValidPacket on the same pointer and size" % f.name)
@@ -345,6 +345,20 @@ def run(ctx):
     res.floor("C03-R3", 7)
     res.floor("C03-R4", 5)
     return res
+
+
+def setlen_is_size_minus_header(fb, m, e):
+    """The value given to setPayloadLength is buffer.size() - sizeof(MessageHeader), as a linear form
+    (whatever constant or sizeof spells the 16; a conversion to the 16-bit field may sit anywhere)."""
+    from rules.decoder_rules import _linear
+    mh = fb.record(NS + "MessageHeader")["size"]
+
+    def syms(x):
+        if x.get("k") == "call" and (x.get("callee") or {}).get("nm") == "size" and strip_all_casts(x.get("obj", {})).get("field") == m.buffer:
+            return "size"
+        return None
+    form = _linear(m.addSegment, e, syms)
+    return form is not None and form.get("size") == 1 and form.get(1, 0) == -mh and set(form) <= {"size", 1}
 
 
 def bounded_reader(fb, g):
